@@ -89,6 +89,11 @@ func C04(c *Ctx) {
 			r.Bad("C04-e", "directives stripped "+b.v.Name, "", "builder/builder.go:writeStaticCode", "template directive text survives in the instantiated variant")
 		}
 	}
+	// the formats of the runtime agree with their arguments (what go vet would reject; thorough runs go vet itself)
+	for _, b := range builtVariants {
+		n, pb := printfArgs(b.v)
+		r.Check(len(pb) == 0, "C04-a", "T.fmt-formats-agree-with-arguments", b.v.Name, "builder/static_code.go", fmt.Sprintf("%d constant formats of fmt calls, verbs agree with the argument types", n), strings.Join(pb, "; "))
+	}
 	if c.Thorough() {
 		c04Vet(c, builtVariants)
 	}
